@@ -155,8 +155,37 @@ def rule_shared(ctx: Ctx) -> List[Ob]:
                     obs.append(Ob("SHARED", "module-level mutable object is not reachable from any function",
                                   m.rel, s.lineno, m.name, short(s, 80), not used,
                                   "referenced by " + ", ".join(used) if used else "no function refers to it"))
+    # (e) process-wide settings: a setter call changes the environment of every later call in the process (and is not
+    # undone when an exception leaves the function); the scoped forms (`with np.errstate(..)`, and warning filters inside
+    # `with warnings.catch_warnings()`) are the only accepted ones
+    for q, f in sorted(ctx.repo.funcs.items()):
+        parents = {id(c): p_ for p_ in ast.walk(f.node) for c in ast.iter_child_nodes(p_)}
+        for c in walk_no_nested(f.node):
+            if not isinstance(c, ast.Call):
+                continue
+            d = dotted(c.func) or ""
+            if d not in GLOBAL_SETTERS and not (d.split(".")[-1] in ("seterr", "seterrcall", "setlocale", "set_printoptions") and "." in d):
+                continue
+            scoped = False
+            if d.startswith("warnings."):
+                n_ = c
+                while id(n_) in parents:
+                    n_ = parents[id(n_)]
+                    if isinstance(n_, ast.With) and any((dotted(it.context_expr.func) if isinstance(it.context_expr, ast.Call) else dotted(it.context_expr))
+                                                         == "warnings.catch_warnings" for it in n_.items):
+                        scoped = True
+            obs.append(ob("SHARED", "no process-wide setting is changed (only scoped forms)", f, c, scoped,
+                          f"`{short(c, 60)}`" + (" inside `with warnings.catch_warnings()`: undone on every exit" if scoped else
+                                                 ": changes the floating-point / warning / locale environment of the whole process; it outlives the call, "
+                                                 "and an exception in between skips any manual restore"),
+                          construct=short(c, 60)))
     return obs
 
+
+GLOBAL_SETTERS = {"np.seterr", "numpy.seterr", "np.seterrcall", "np.setbufsize", "np.set_printoptions", "np.random.seed", "random.seed",
+                  "warnings.simplefilter", "warnings.filterwarnings", "warnings.resetwarnings", "os.putenv", "os.chdir", "os.umask",
+                  "locale.setlocale", "sys.setrecursionlimit", "sys.setswitchinterval", "logging.basicConfig", "logging.disable",
+                  "logging.captureWarnings", "np.seterrobj"}
 
 NONDET_MODULES = {"random", "time", "datetime", "uuid", "secrets", "os", "threading", "multiprocessing"}
 NONDET_CALLS = {"id", "hash", "np.random", "os.environ", "os.getenv", "os.getpid", "time.time", "input"}
